@@ -303,7 +303,7 @@ Proof.
   { intros Hn'. apply (rule_sound1 I ora o args ty r Hwf); auto. now apply okt_intro. }
   destruct o; try (apply Hgen; exact Hn).
   destruct args as [|d rest]; [apply Hgen; exact Hn|]. cbn [ok_node_w] in Hn. cbn [rule] in E.
-  destruct (r_array_value_sound I it d rest ty r Hn Fa Htc E) as (A & B & C). auto.
+  destruct (r_array_value_sound I Hwf it d rest ty r Hn Fa Htc E) as (A & B & C). auto.
 Qed.
 
 (* ================================================================== division safety of the arguments *)
@@ -552,3 +552,15 @@ Example sound_example_str :
   in_frag ex_str = true /\ tc ex_str = Some TBool /\ div_safe I0 ex_str /\
   simplify_opt no_oracle ex_str = Some (T (OStr SPrefixOf) [TStrC [98; 99]%Z; TSym "s" TStr]).
 Proof. split; [reflexivity|]. split; [reflexivity|]. split; [|vm_compute; reflexivity]. cbn. tauto. Qed.
+
+(* finite index sorts: the assigned indices cover Bool, the defaults are not seen *)
+Definition ex_arr_fin : term :=
+  let a := T (OArrayValue TBool) [TIntC 0; TBoolC false; TIntC 1] in
+  let b := T (OArrayValue TBool) [TIntC 1; TBoolC true; TIntC 0] in
+  T OAnd [T OEquals [a; b];
+          T ONot [T OEquals [T (OArrayValue (TBV 2)) [TIntC 0; TBVC 0 2; TIntC 1]; T (OArrayValue (TBV 2)) [TIntC 1; TBVC 1 2; TIntC 0]]];
+          T OEquals [T OSelect [T OStore [a; TBoolC true; TSym "x" TInt]; TBoolC true]; TSym "x" TInt]].
+Example sound_example_arr_fin :
+  in_frag ex_arr_fin = true /\ tc ex_arr_fin = Some TBool /\ div_safe I0 ex_arr_fin /\
+  simplify_opt no_oracle ex_arr_fin = Some TTrue.
+Proof. split; [reflexivity|]. split; [reflexivity|]. split; [|reflexivity]. cbn. tauto. Qed.
